@@ -11,7 +11,7 @@ for spec in "$@"; do
   git -C /repo worktree add -q --detach $wt HEAD || continue
   (cd $wt && git apply /verif/seeded/$name/patch.diff) || { echo "$name: patch does not apply"; continue; }
   for id in ${ids//,/ }; do
-    (HPL_REPO_DIR=$wt VERIF_SEED=${VERIF_SEED:-1} ${NOREG:+VERIF_NO_REGRESSIONS=1} /venv/bin/python -m hplverif.run $id > /tmp/ow_${name}_$id.log 2>&1; rc=$?
+    (env HPL_REPO_DIR=$wt VERIF_SEED=${VERIF_SEED:-1} ${NOREG:+VERIF_NO_REGRESSIONS=1} /venv/bin/python -m hplverif.run $id > /tmp/ow_${name}_$id.log 2>&1; rc=$?
      echo "$name vs $id: rc=$rc $(grep -E 'signature' /tmp/ow_${name}_$id.log | head -3 | tr '\n' ' ')") &
     while [ $(jobs -r | wc -l) -ge 14 ]; do sleep 0.5; done
   done
